@@ -176,6 +176,23 @@ def intermediate_code(passphrase, owner_salt, lot=None, sequence=None, normalize
     return codec.b58check_encode((MAGIC_LOT if haslot else MAGIC_NOLOT) + oe + ec.encode_pub(ec.mul_g(pf), True))
 
 
+def ec_plan(passphrase, owner_salt, lot, sequence, seedb, compressed, address_fn=BITCOIN, normalize=True):
+    """Everything about one EC-multiplied key with a single expensive scrypt: intermediate code, encrypted key,
+    confirmation code, address and the private key the owner of the passphrase will recover."""
+    owner_salt = bytes(owner_salt)
+    haslot = lot is not None
+    oe = owner_salt[:4] + (lot * 4096 + sequence).to_bytes(4, 'big') if haslot else owner_salt
+    if len(oe) != 8:
+        raise Bip38Error('owner salt length')
+    pf = _passfactor(passphrase, oe, haslot, normalize)
+    code = codec.b58check_encode((MAGIC_LOT if haslot else MAGIC_NOLOT) + oe + ec.encode_pub(ec.mul_g(pf), True))
+    g = generate(code, seedb, compressed, address_fn)
+    g['intermediate'] = code
+    g['secret'] = (pf * g['factorb'] % ec.N).to_bytes(32, 'big')
+    assert ec.pub_from_secret(pf * g['factorb'] % ec.N, compressed) == g['pubkey']
+    return g
+
+
 def parse_intermediate(code):
     raw = codec.b58check_decode(code)
     if raw is None or len(raw) != 49 or raw[:8] not in (MAGIC_LOT, MAGIC_NOLOT):
